@@ -195,6 +195,12 @@ func classifyEnum(c *Ctx, pk, typ string) *enumShape {
 	if !stored {
 		es.probs = append(es.probs, "UnmarshalText never stores the parsed value")
 	}
+	// the result must be built from the text alone: the previous value of the receiver is never read
+	for _, in := range allInstrs(u) {
+		if ld, ok := in.(*ssa.UnOp); ok && ld.Op == token.MUL && len(u.Params) > 0 && ld.X == ssa.Value(u.Params[0]) {
+			es.probs = append(es.probs, "UnmarshalText reads the receiver's previous value: parsing into a non-zero variable yields old|new (and \"0\" does not clear it)")
+		}
+	}
 	if es.bitmask {
 		for _, ci := range callsNamed(u, "strings.Split") {
 			if cs, ok := ci.Common().Args[1].(*ssa.Const); ok && cs.Value != nil && cs.Value.Kind() == constant.String {
